@@ -32,6 +32,27 @@ var DirectedScenarios = []Directed{
 		s.Settle()
 		return s.Finish()
 	}},
+	{Name: "deleted-root-child-held-by-loading-parent", Prop: "C02", Run: func(seed uint64) *HistResult {
+		// r -> x is held directly; l -> x is still loading (its other child is
+		// slow) when r is deleted. The client drops r and with it x, so l's
+		// response has to bring x again.
+		s := NewScript(HistCfg{Seed: seed, Pct: 0})
+		w := s.World()
+		w.AddModel("t.r", map[string]Val{"x": Ref("t.x")})
+		w.AddModel("t.x", map[string]Val{"v": P(1)})
+		w.AddModel("t.l", map[string]Val{"x": Ref("t.x"), "s": Ref("t.s")})
+		w.AddModel("t.s", map[string]Val{"slow": P(true)})
+		c := s.Connect("1.2.3")
+		s.Req(c, "subscribe.t.r", nil)
+		s.Settle()
+		s.Req(c, "subscribe.t.l", nil)
+		s.AnswerExcept("get.t.s")
+		w.Delete("t.r")
+		s.Quiesce()
+		s.Answer("get.t.s")
+		s.Settle()
+		return s.Finish()
+	}},
 	{Name: "delete-with-error-child", Prop: "C09", Run: func(seed uint64) *HistResult {
 		s := NewScript(HistCfg{Seed: seed, Pct: 0, Metrics: true, GetOutcome: [4]int{100, 0, 0, 0}})
 		w := s.World()
